@@ -1,21 +1,56 @@
 #!/usr/bin/env python3
-"""Re-run every seeded change under /verif/seeded against its property's quick check (applied to /repo and reverted)
-and refresh meta.json ("detected", "check_exit").  usage: tools/rerun_seeds.py [name-prefix | Cxx]"""
-import glob, json, os, subprocess, sys
-pref = sys.argv[1] if len(sys.argv) > 1 else ""
-rows = []
+"""Re-run every seeded change under /verif/seeded against its property's quick check and refresh meta.json ("detected",
+"check_exit", "detected_as").  /repo is not touched: each change is applied in one of N scratch worktrees of /repo's HEAD
+(created under /tmp/rerun_wt, removed at the end) and the check runs against that tree (VERIF_REPO).
+usage: tools/rerun_seeds.py [name-prefix | Cxx] [--workers 6]"""
+import glob, json, os, subprocess, sys, threading
+args = [a for a in sys.argv[1:] if not a.startswith("--")]
+pref = args[0] if args else ""
+workers = int(sys.argv[sys.argv.index("--workers") + 1]) if "--workers" in sys.argv else 6
+BASE = "/tmp/rerun_wt"
+todo = []
 for d in sorted(glob.glob("/verif/seeded/*/")):
     name = os.path.basename(d.rstrip("/"))
     m = json.load(open(d + "meta.json"))
-    pid = m["property"]
-    if not (name.startswith(pref) or pid == pref):
-        continue
-    p = subprocess.run(["/verif/tools/try_patch.sh", d + "patch.diff", pid], capture_output=True, text=True)
-    rc = p.returncode
-    what = [l.strip() for l in p.stdout.splitlines() if l.strip().startswith("what:")][:1]
-    m["check_exit"], m["detected"] = rc, rc == 1
-    m["detected_as"] = what[0][6:] if what else None
-    json.dump(m, open(d + "meta.json", "w"), indent=1)
-    rows.append((name, pid, rc, m["detected_as"]))
-    print("%-40s %s exit=%d %s" % (name, pid, rc, (m["detected_as"] or "")[:90]))
+    if name.startswith(pref) or m["property"] == pref:
+        todo.append((name, d, m))
+rows, lock = [], threading.Lock()
+
+
+def work(w):
+    wt = "%s/s%d" % (BASE, w)
+    subprocess.run(["git", "-C", "/repo", "worktree", "add", "-q", "--detach", wt, "HEAD"], check=True)
+    try:
+        while True:
+            with lock:
+                if not todo:
+                    return
+                name, d, m = todo.pop(0)
+            pid = m["property"]
+            subprocess.run(["git", "-C", wt, "checkout", "-q", "--", "."])
+            a = subprocess.run(["git", "-C", wt, "apply", d + "patch.diff"], capture_output=True, text=True)
+            if a.returncode:
+                rc, out = 3, "PATCH DOES NOT APPLY: " + a.stderr[:200]
+            else:
+                p = subprocess.run("cd /verif && VERIF_REPO=%s ./check %s --tier quick" % (wt, pid), shell=True, capture_output=True, text=True)
+                rc, out = p.returncode, p.stdout
+            what = [l.strip() for l in out.splitlines() if l.strip().startswith("what:")][:1]
+            m["check_exit"], m["detected"] = rc, rc == 1
+            m["detected_as"] = what[0][6:] if what else None
+            json.dump(m, open(d + "meta.json", "w"), indent=1)
+            with lock:
+                rows.append((name, pid, rc))
+                print("%-44s %s exit=%d %s" % (name, pid, rc, (m["detected_as"] or out[-100:] if rc != 1 else m["detected_as"] or "")[:90]), flush=True)
+    finally:
+        subprocess.run(["git", "-C", "/repo", "worktree", "remove", "--force", wt])
+
+
+os.makedirs(BASE, exist_ok=True)
+ts = [threading.Thread(target=work, args=(i,)) for i in range(workers)]
+[t.start() for t in ts]
+[t.join() for t in ts]
+try:
+    os.rmdir(BASE)
+except OSError:
+    pass
 print("%d/%d detected" % (sum(1 for r in rows if r[2] == 1), len(rows)))
